@@ -42,8 +42,13 @@ impl Handles {
     pub fn lib(&self, t: Triple) -> Lib {
         (self.langs[t.l as usize], self.scripts[t.s as usize], self.regions[t.r as usize])
     }
+    /// the whole universe including the extended unknowns
     pub fn dims(&self) -> (u64, u64, u64) {
         (self.langs.len() as u64, self.scripts.len() as u64, self.regions.len() as u64)
+    }
+    /// absent + CLDR subtags + unknown representatives
+    pub fn core_dims(&self) -> (u64, u64, u64) {
+        (self.lk.uni.n_core_langs as u64, self.lk.uni.n_core_scripts as u64, self.lk.uni.n_core_regions as u64)
     }
     pub fn case(&self, t: Triple) -> Value {
         json!({"kind": "triple", "language": self.lk.uni.langs[t.l as usize], "script": self.lk.uni.scripts[t.s as usize], "region": self.lk.uni.regions[t.r as usize], "text": self.lk.show(t)})
@@ -83,9 +88,11 @@ pub fn hash_triple(t: Triple) -> u64 {
 /// seeded sample of full triples drawn through proptest), thorough = the whole universe.
 /// `f(triple, stats, count_mode)`.
 pub fn sweep(cfg: &Cfg, h: &Handles, tag: &str, f: &(dyn Fn(Triple, &mut Stats, Count) + Sync)) -> Stats {
-    let (nl, ns, nr) = h.dims();
+    let (nl, ns, nr) = h.core_dims();
+    let (xl, xs, xr) = h.dims();
     let mut total = Stats::new();
-    if cfg.tier == Tier::Thorough {
+    let thorough = cfg.tier == Tier::Thorough;
+    if thorough {
         let n = nl * ns * nr;
         let chunk = 1u64 << 16;
         let s = (0..n.div_ceil(chunk))
@@ -99,46 +106,87 @@ pub fn sweep(cfg: &Cfg, h: &Handles, tag: &str, f: &(dyn Fn(Triple, &mut Stats, 
             })
             .reduce(Stats::new, Stats::merge);
         total = total.merge(s);
-        total.subspace(&format!("every (language, script, region) over {nl} x {ns} x {nr} (CLDR subtag universe + absent + unknown representatives)"), n, true);
-        return total;
+        total.subspace(&format!("every (language, script, region) over {nl} x {ns} x {nr} (absent + CLDR subtags + unknown representatives)"), n, true);
     }
-    // (l, s, -) and (l, -, r): includes (l,-,-)
-    let n1 = nl * ns;
-    let s = par_range(n1, |i, st| f(Triple { l: (i / ns) as u16, s: (i % ns) as u16, r: 0 }, st, Count::Enum));
+    // one- and two-component families over the EXTENDED universe (every two-letter and many
+    // three-letter languages, neighbours of the known scripts, every well-formed region);
+    // in the thorough tier the core part was already enumerated above and is not counted again
+    let core = move |t: Triple| thorough && (t.l as u64) < nl && (t.s as u64) < ns && (t.r as u64) < nr;
+    let n1 = xl * xs;
+    let s = par_range(n1, |i, st| {
+        let t = Triple { l: (i / xs) as u16, s: (i % xs) as u16, r: 0 };
+        f(t, st, if core(t) { Count::No } else { Count::Enum })
+    });
     total = total.merge(s);
-    total.subspace("every (language, script, absent)", n1, true);
-    let n2 = nl * (nr - 1);
-    let s = par_range(n2, |i, st| f(Triple { l: (i / (nr - 1)) as u16, s: 0, r: (i % (nr - 1) + 1) as u16 }, st, Count::Enum));
+    total.subspace(&format!("every (language, script, absent) over the extended universe ({xl} x {xs})"), n1, true);
+    let n2 = xl * (xr - 1);
+    let s = par_range(n2, |i, st| {
+        let t = Triple { l: (i / (xr - 1)) as u16, s: 0, r: (i % (xr - 1) + 1) as u16 };
+        f(t, st, if core(t) { Count::No } else { Count::Enum })
+    });
     total = total.merge(s);
-    total.subspace("every (language, absent, region)", n2, true);
-    // (und, s, r) with both present
-    let n3 = (ns - 1) * (nr - 1);
-    let s = par_range(n3, |i, st| f(Triple { l: 0, s: (i / (nr - 1) + 1) as u16, r: (i % (nr - 1) + 1) as u16 }, st, Count::Enum));
+    total.subspace(&format!("every (language, absent, region) over the extended universe ({xl} x {})", xr - 1), n2, true);
+    let n3 = (xs - 1) * (xr - 1);
+    let s = par_range(n3, |i, st| {
+        let t = Triple { l: 0, s: (i / (xr - 1) + 1) as u16, r: (i % (xr - 1) + 1) as u16 };
+        f(t, st, if core(t) { Count::No } else { Count::Enum })
+    });
     total = total.merge(s);
-    total.subspace("every (und, script, region)", n3, true);
-    // full triples around every CLDR key: key language x all scripts x all regions for the
-    // languages that have lang_region / lang_script entries (their cascades are the richest)
+    total.subspace(&format!("every (und, script, region) over the extended universe ({} x {})", xs - 1, xr - 1), n3, true);
+    // full triples around every CLDR key: key language x all core scripts x all core regions for
+    // the languages that have lang_region / lang_script entries (their cascades are the richest)
     let mut rich: Vec<u16> = h.lk.lang_region.keys().map(|k| k.0).chain(h.lk.lang_script.keys().map(|k| k.0)).collect();
     rich.sort();
     rich.dedup();
-    let n4 = rich.len() as u64 * (ns - 1) * (nr - 1);
-    let s = par_range(n4, |i, st| {
-        let l = rich[(i / ((ns - 1) * (nr - 1))) as usize];
-        let rest = i % ((ns - 1) * (nr - 1));
-        f(Triple { l, s: (rest / (nr - 1) + 1) as u16, r: (rest % (nr - 1) + 1) as u16 }, st, Count::Enum)
+    if !thorough {
+        let n4 = rich.len() as u64 * (ns - 1) * (nr - 1);
+        let s = par_range(n4, |i, st| {
+            let l = rich[(i / ((ns - 1) * (nr - 1))) as usize];
+            let rest = i % ((ns - 1) * (nr - 1));
+            f(Triple { l, s: (rest / (nr - 1) + 1) as u16, r: (rest % (nr - 1) + 1) as u16 }, st, Count::Enum)
+        });
+        total = total.merge(s);
+        total.subspace(&format!("full triples for the {} languages with language-region / language-script entries (core scripts x core regions)", rich.len()), n4, true);
+    }
+    // rich languages x their own key scripts x EVERY well-formed region, and x every script
+    // (incl. neighbours) x their own key regions: complete identifiers next to two-component keys
+    let mut pairs: Vec<(u16, u16, bool)> = h.lk.lang_script.keys().map(|k| (k.0, k.1, true)).chain(h.lk.lang_region.keys().map(|k| (k.0, k.1, false))).collect();
+    pairs.sort();
+    let n5 = pairs.len() as u64 * (xr + xs);
+    let s = par_range(n5, |i, st| {
+        let (l, x, is_script) = pairs[(i / (xr + xs)) as usize];
+        let j = i % (xr + xs);
+        let t = if is_script {
+            if j < xr {
+                Triple { l, s: x, r: j as u16 }
+            } else {
+                Triple { l, s: (j - xr) as u16, r: 0 }
+            }
+        } else if j < xs {
+            Triple { l, s: j as u16, r: x }
+        } else {
+            Triple { l, s: 0, r: (j - xs) as u16 }
+        };
+        // members with an absent component belong to the families above; full triples inside
+        // the core ranges were enumerated before (quick: rich languages; thorough: everything)
+        let seen = t.s == 0 || t.r == 0 || ((t.s as u64) < ns && (t.r as u64) < nr);
+        f(t, st, if seen { Count::No } else { Count::Hash })
     });
     total = total.merge(s);
-    total.subspace(&format!("full triples for the {} languages with language-region / language-script entries", rich.len()), n4, true);
-    // seeded sample of full triples (proptest); those of rich languages are already enumerated
-    let n5 = 1_500_000u64;
-    let strat = (1..nl as u16, 1..ns as u16, 1..nr as u16);
+    total.subspace("every language-script key x every region, every language-region key x every script (extended universe)", n5, true);
+    // seeded sample of full triples over the extended universe (proptest)
     let rich_set: std::collections::HashSet<u16> = rich.iter().cloned().collect();
-    let s = run_strategy(&strat, cfg.seed, &format!("{tag}-triples"), n5, |(l, s, r), st| {
+    let n6 = cfg.pick(1_500_000u64, 20_000_000u64);
+    let strat = (1..xl as u16, 1..xs as u16, 1..xr as u16);
+    let s = run_strategy(&strat, cfg.seed, &format!("{tag}-triples"), n6, |(l, s, r), st| {
         let t = Triple { l: *l, s: *s, r: *r };
-        f(t, st, if rich_set.contains(l) { Count::No } else { Count::Hash })
+        let in_core = (t.l as u64) < nl && (t.s as u64) < ns && (t.r as u64) < nr;
+        let seen = in_core && (thorough || rich_set.contains(l));
+        f(t, st, if seen { Count::No } else { Count::Hash })
     });
     total = total.merge(s);
-    total.subspace("seeded sample of full (language, script, region) triples (proptest)", n5, false);
+    total.subspace("seeded sample of full (language, script, region) triples over the extended universe (proptest)", n6, false);
+    total.extra.insert("triple_universe".into(), serde_json::json!({"core": [nl, ns, nr], "extended": [xl, xs, xr]}));
     total
 }
 
